@@ -165,8 +165,12 @@ func (e *FnEnc) encodeBody() {
 	for _, fv := range fn.FreeVars {
 		v := e.freshParam("fv_"+fv.Name(), fv.Type())
 		e.vals[fv] = v
-		e.params[fv.Name()] = v
+		if e.fvPtrs == nil {
+			e.fvPtrs = map[string]Val{}
+		}
+		e.fvPtrs[fv.Name()] = v
 		e.assert(e.typeFacts(v))
+		e.assert(sand(snot(seq(v.L[0], "0")), "(select "+allocArr+" "+v.L[0]+")"))
 	}
 	e.assert("(not (select " + allocArr + " 0))")
 	e.assumePkgInvariants()
@@ -525,13 +529,19 @@ func (e *FnEnc) encodeExit() {
 		if lbl == "" {
 			lbl = shortLabel(c.Src)
 		}
+		if c.Kind == "assumes" {
+			// a postcondition that is assumed, not proved (it names the result of unverified code); listed as an assumption
+			e.note(e.key + ": assumed postcondition [" + lbl + "] " + c.Src)
+			e.assume(t)
+			continue
+		}
 		e.oblige("ensures", lbl, t, token.NoPos)
 		// fallback decomposition: the same clause at each return point separately (no ite-merged results)
 		if len(e.rets) > 1 && len(e.obls) > 0 && e.obls[len(e.obls)-1].Goal == t {
 			parent := e.obls[len(e.obls)-1]
 			saveG, saveSt := e.curGuard, e.st
 			for k, r := range e.rets {
-				renv := &specEnv{e: e, vars: map[string]Val{}, st: r.st, old: e.st0}
+				renv := &specEnv{e: e, vars: map[string]Val{}, st: r.st, old: e.st0, fvs: e.fvPtrs}
 				for kk, v := range e.params {
 					renv.vars[kk] = v
 				}
@@ -983,6 +993,13 @@ func (e *FnEnc) encConvert(x *ssa.Convert) {
 		e.assume(fmt.Sprintf("(forall ((k %s)) (! (=> (and %s %s) (= %s (select (select %s %s) %s))) :pattern (%s)))",
 			ix, e.idxLe(e.idxConst(0), "k"), e.idxLt("k", v.L[2]), e.strAt(s, "k"), a, v.L[0], e.idxAdd(v.L[1], "k"), e.strAt(s, "k")))
 		e.setVal(x, Val{L: []string{s}})
+	case isStringType(from) && isRuneSlice(to):
+		// fresh array of unconstrained runes, at most one per byte of the string
+		r := e.newRef("s2r")
+		n := e.decl(e.fresh("s2r_len"), e.sorter.idxSort())
+		e.assume(sand(e.idxLe(e.idxConst(0), n), e.idxLe(n, e.strLen(v.L[0]))))
+		e.assume(e.strLenFacts(v.L[0]))
+		e.setVal(x, Val{L: []string{r, e.idxConst(0), n, n}})
 	case isStringType(to) || isStringType(from):
 		nv := e.freshVal("strconv", to)
 		e.setVal(x, nv)
@@ -1410,7 +1427,7 @@ func (e *FnEnc) encNext(x *ssa.Next) {
 // ---------- environments for contract expressions ----------
 
 func (e *FnEnc) entryEnv() *specEnv {
-	env := &specEnv{e: e, vars: map[string]Val{}, st: e.st0, old: e.st0}
+	env := &specEnv{e: e, vars: map[string]Val{}, st: e.st0, old: e.st0, fvs: e.fvPtrs}
 	for k, v := range e.params {
 		env.vars[k] = v
 	}
@@ -1418,7 +1435,7 @@ func (e *FnEnc) entryEnv() *specEnv {
 }
 
 func (e *FnEnc) exitEnv() *specEnv {
-	env := &specEnv{e: e, vars: map[string]Val{}, st: e.st, old: e.st0, results: e.results}
+	env := &specEnv{e: e, vars: map[string]Val{}, st: e.st, old: e.st0, results: e.results, fvs: e.fvPtrs}
 	for k, v := range e.params {
 		env.vars[k] = v
 	}
@@ -1436,7 +1453,7 @@ func (e *FnEnc) exitEnv() *specEnv {
 
 // environment at a block entry (loop header): phi overrides, variables resolved through debug info
 func (e *FnEnc) pointEnv(b *ssa.BasicBlock, over map[*ssa.Phi]Val, loopPre *State) *specEnv {
-	env := &specEnv{e: e, vars: map[string]Val{}, st: e.st, old: e.st0, loopPre: loopPre}
+	env := &specEnv{e: e, vars: map[string]Val{}, st: e.st, old: e.st0, loopPre: loopPre, fvs: e.fvPtrs}
 	env.lookup = func(name string) (Val, bool) {
 		// phis of the header
 		for _, in := range b.Instrs {
